@@ -53,7 +53,8 @@ impl<'a> ProgGen<'a> {
                         4..=6 => Op::Set(t, v),
                         7 => Op::Remove(t),
                         8 => Op::SetBest(Some(*self.g.pick(&[0.0, 0.25, 0.5, 1.0, 2.0, 3.0, 7.5]))),
-                        _ => Op::SetBest(if self.g.chance(0.5) { None } else { Some(f64::INFINITY) }),
+                        _ if self.g.chance(0.5) => Op::SetBest(if self.g.chance(0.5) { None } else { Some(f64::INFINITY) }),
+                        _ => Op::SetBestHere(if self.g.chance(0.6) { None } else { Some(*self.g.pick(&[0.0, 1.0, 3.0])) }),
                     }
                 })
                 .collect();
